@@ -425,6 +425,10 @@ func (g *GoFakeS3) deleteBucket(bucket string, w http.ResponseWriter, r *http.Re
 			if err := f.ForceDeleteBucket(bucket); err != nil {
 				return err
 			}
+			// The bucket is gone with everything in it: a DeleteBucket on top
+			// of that could only answer NoSuchBucket.
+			w.WriteHeader(http.StatusNoContent)
+			return nil
 		}
 	}
 
